@@ -282,6 +282,8 @@ def run(tier, seed):  # pylint: disable=too-many-locals,too-many-statements,too-
         "refused_assignment_left_live_changed_observed": stats["refused_changed_live"],
         "set_invalid_value_accepted_observed": stats["invalid_accepted"],
         "behaviours_cut_after_deviation": stats["cut_after_deviation"],
+        "assignments_fresh_value": stats["assigned_fresh"], "assignments_array_edited_in_place": stats["assigned_inplace"],
+        "unbound_scalar_attribute_comparisons": stats["unbound_scalar_checked"],
         "classes_discovered": len(targets), "classes_instantiated": len(targets) - len(classes_not_instantiated),
         "pairs_discovered": pairs_total, "pairs_exercised": len(exercised_pairs),
         "pairs_not_exercised": len(not_exercised),
